@@ -281,7 +281,7 @@ Section Handler.
     | Some te =>
         let rest := skipn (hs_next s) te in
         let '(i, t, ys) :=
-          if abs O (xold - x) <=? TOL then scan_initial TOL x y rest (hs_next s) (hs_t s) (hs_y s)
+          if xold =? x then scan_initial TOL x y rest (hs_next s) (hs_t s) (hs_y s)
           else scan_step (x >? xold) TOL xold x interp rest (hs_next s) (hs_t s) (hs_y s) in
         mkHS i t ys (hs_tev s) (hs_yev s) (hs_segs s) (hs_yold s) (hs_prev s) (hs_hits s)
              (hs_first_done s) (hs_evlog s) (hs_brent_unconverged s)
@@ -289,7 +289,7 @@ Section Handler.
         let normal :=
           let push := match hs_t s with
                       | [] => true
-                      | tl :: _ => abs O (tl - x) >? TOL
+                      | tl :: _ => negb (tl =? x)
                       end in
           if push then
             mkHS (hs_next s) (x :: hs_t s) (y :: hs_y s) (hs_tev s) (hs_yev s) (hs_segs s)
@@ -298,7 +298,7 @@ Section Handler.
           else s in
         match hc_first_step C with
         | Some h0 =>
-            if negb (hs_first_done s) && (abs O (xold - x) >? TOL) then
+            if negb (hs_first_done s) && negb (xold =? x) then
               let dirn := signum O (x - xold) in
               let target := hc_x0 C + dirn * h0 in
               if (dirn * (x - target)) >=? neg O TOL then
